@@ -9,32 +9,55 @@ CATS = ("missing", "unused", "bad", "deprecated", "noext", "nocop", "nolic", "re
 
 
 class VerdictOracle(rc.ReportStream):
-    def oracle(self, case, impl_out):
-        if impl_out.startswith("EXC"):
-            return "crash: " + impl_out
-        got = json.loads(impl_out)
-        viol = rc.clauses(case)
+    def judge(self, case, got, alt):
+        viol = rc.clauses(case, alt)
         # the verdict, straight from clauses (a)-(d)
         if (got["exit"] == 0) != (not viol):
-            kind = rc.diff_kind(case, got, rc.expected(case), CATS + ("exit",))
+            kind = rc.diff_kind(case, got, rc.expected(case, alt), CATS + ("exit",))
             if kind and not kind.startswith("category-mismatch"):
                 return kind
             return "verdict: exit %d but violated clauses are %s" % (got["exit"], viol or "none")
         if got["compliant"] != (got["exit"] == 0):
             return "verdict-flag: summary.compliant=%s with exit %d" % (got["compliant"], got["exit"])
         # the named offenders, and nothing else
-        return rc.diff_kind(case, got, rc.expected(case), CATS)
+        return rc.diff_kind(case, got, rc.expected(case, alt), CATS)
+
+    def oracle(self, case, impl_out):
+        if impl_out.startswith("EXC"):
+            return "crash: " + impl_out
+        got = json.loads(impl_out)
+        # every covered file is accounted for — it has a per-file report or it is named as unreadable — and nothing else is
+        covered = {p for p, rd, cop, exprs in rc.abstract(case)}
+        seen = set(got["files"]) | set(got["readerr"])
+        if covered - seen:
+            return "file-vanished: covered file(s) %s have no per-file report and are not named under read errors (exit %d)" % (
+                sorted(covered - seen), got["exit"])
+        if seen - covered:
+            return "non-covered-file-examined: %s" % sorted(seen - covered)
+        why = self.judge(case, got, False)
+        if why is not None and rc.has_choke(case) and self.judge(case, got, True) is None:
+            # a tag on which the expression parser fails internally: naming the file as unreadable (what the tool does) and
+            # taking nothing from the file (as for any other unparseable expression) are both accepted
+            return None
+        return why
 
 
 class TreeStream(VerdictOracle, Stream):
     name = "trees"
-    rule = ("compliant-by-construction trees (1-6 covered files with spaces / non-ASCII / colon in their names, headers in 7 comment "
-            "styles, .license siblings, binaries, REUSE.toml incl. aggregate precedence, dep5, LICENSES/ sub-directories and .license "
-            "companions, non-covered material: LICENSE, COPYING, *.spdx, empty files, symlinks, empty directories, git-ignored files; one "
-            "in five inside a Git repository; one in forty through the multiprocessing pool) with zero, one or 2-5 injected defects of 14 "
-            "kinds (missing, unused, bad used / provided, wrong case, deprecated, no extension, no copyright, no licence, neither, "
-            "read error through a FIFO, LicenseRef- missing / without extension, only ID+ provided); real `reuse lint --json` and exit "
-            "status vs the model fed from the generator's records; oracle = clauses (a)-(d) and the category definitions; "
+    rule = ("compliant-by-construction trees (1-7 covered files with spaces / non-ASCII / colon in their names, headers in 7 comment "
+            "styles, .license siblings, snippets, binaries; global licensing: none, one REUSE.toml with a table per file incl. aggregate "
+            "precedence, REUSE.toml hierarchies (a REUSE.toml in the root and in any directory above a file, 1-3 tables each with "
+            "`**`, `*`, `*.ext`, `dir/**` or literal paths, closest / aggregate / override, copyright only / licence only / both / "
+            "neither, last matching table applies; files with a full header, half a header or none, completed by one or two REUSE.toml "
+            "files), dep5 with one-file and wildcard paragraphs (last match applies, always aggregated); LICENSES/ sub-directories and "
+            ".license companions, non-covered material: LICENSE, COPYING, *.spdx, empty files, symlinks, empty directories, git-ignored "
+            "files; one in five inside a Git repository; one in forty through the multiprocessing pool) with zero, one or 2-5 injected "
+            "defects of 20 kinds (missing, unused, bad used / provided, wrong case, deprecated, no extension, no copyright, no licence, "
+            "neither, read error through a FIFO, LicenseRef- missing / without extension, only ID+ provided, empty notice in REUSE.toml, "
+            "a dep5 paragraph whose License field is no SPDX expression, a licence tag on which the expression parser fails internally, "
+            "a REUSE.toml table stripped / with another precedence / shadowed by a later table); real `reuse lint --json` and exit "
+            "status vs the model fed from the generator's records (attribution through the specification function of C04); oracle = "
+            "clauses (a)-(d), the category definitions, and: every covered file has a per-file report or is named under read errors; "
             "non-trivial = distinct reports")
 
     def cases(self, tier, rng):
@@ -71,6 +94,10 @@ PROPERTY = Property(
         "outside the composed model: special files (FIFOs), symlinks below LICENSES/, a live symlink as FILE.license, a dep5 licence "
         "synopsis that does not parse",
         "read errors are provoked with a FIFO (the sandbox runs as root, so permissions cannot be used)",
+        "per-file failures that are not I/O errors are provoked with a dep5 License field that is no SPDX expression and with licence tags "
+        "on which the expression parser fails internally",
+        "streams trees / cells: which REUSE.toml table / dep5 paragraph matches which file is the generator's ground truth (its own five pattern "
+        "shapes); glob translation is the subject of C05, precedence of C04 (whose specification function is reused here)",
         "theorems carry plainNames (see C06) and `generate … = some r` (no two LICENSES/ entries with one identifier: the tool stops, C16)",
     ],
 )
